@@ -57,6 +57,9 @@ def pseudo(src: bytes, dst: bytes, proto: int, length: int) -> bytes:
 #   ip4_opts: an IPv4 NOP/NOP/NOP/EOL option word (IHL 6)               eth_pad: short frames padded to the 60-byte Ethernet minimum
 #   no_psh: data segments carry the ACK flag only (no PSH)
 #   eth_fcs: every frame carries a 4-byte trailer behind the IP datagram (captured FCS / mirror-port trailer)
+#   vlan: every frame carries an IEEE 802.1Q tag (TPID 0x8100) -- a capture on a trunk port;  qinq: an 802.1ad service tag (0x88A8) around it
+#   tso: the capture was taken on the sending host with TCP segmentation offload: data segments carry IPv4 total length 0 (the NIC fills it in
+#        later); the IP datagram then extends to the end of the frame (no padding / trailer in such frames)
 VARIATION = {}
 
 
@@ -90,7 +93,10 @@ def udp_datagram(src, dst, sport, dport, payload=b"", bad_sum=None, sum_override
 def ip_packet(src, dst, proto, payload, ident=0, ttl=64):
     if len(src) == 4:
         opts = b"\x01\x01\x01\x00" if VARIATION.get("ip4_opts") else b""
-        hdr = struct.pack("!BBHHHBBH4s4s", 0x45 + len(opts) // 4, 0, 20 + len(opts) + len(payload), ident & 0xFFFF, 0x4000, ttl, proto, 0, src, dst) + opts
+        total = 20 + len(opts) + len(payload)
+        if VARIATION.get("tso") and proto == 6 and len(payload) > 20 + (12 if VARIATION.get("tcp_opts") else 0):      # a data segment handed to an offloading NIC
+            total = 0
+        hdr = struct.pack("!BBHHHBBH4s4s", 0x45 + len(opts) // 4, 0, total, ident & 0xFFFF, 0x4000, ttl, proto, 0, src, dst) + opts
         c = csum16(hdr)
         return hdr[:10] + struct.pack("!H", c) + hdr[12:] + payload
     if VARIATION.get("ip6_ext"):
@@ -101,7 +107,14 @@ def ip_packet(src, dst, proto, payload, ident=0, ttl=64):
 
 def eth_frame(smac, dmac, ip_pkt):
     et = 0x0800 if ip_pkt[0] >> 4 == 4 else 0x86DD
-    fr = dmac + smac + struct.pack("!H", et) + ip_pkt
+    tag = b""
+    if VARIATION.get("qinq"):
+        tag += struct.pack("!HH", 0x88A8, 0x2000 | 300)
+    if VARIATION.get("vlan") or VARIATION.get("qinq"):
+        tag += struct.pack("!HH", 0x8100, 0x6000 | 100)
+    fr = dmac + smac + tag + struct.pack("!H", et) + ip_pkt
+    if VARIATION.get("tso"):
+        return fr                            # (no padding or trailer behind a datagram whose length field is not filled in)
     if VARIATION.get("eth_pad") and len(fr) < 60:
         fr += b"\x00" * (60 - len(fr))
     if VARIATION.get("eth_fcs"):                 # the capture kept the 4-byte frame check sequence (or a mirror-port trailer) behind the IP datagram
